@@ -14,6 +14,7 @@ Correspondence sections (every call goes to the *real* WeasyPrint function, in-p
   documents           random trees of block divs rendered with harness/docs.py; every block box's used
                       values and position_x against the model applied top-down
 """
+import collections
 from fractions import Fraction as F
 import math
 
@@ -276,6 +277,47 @@ def gen_abox(rng, adversarial, cbw):
     return {'ml': ml, 'mr': mr, 'pl': pb[0], 'pr': pb[1], 'bl': pb[2], 'br': pb[3], 'w': w,
             'min': mn, 'max': mx, 'x': rng.choice([F(0), small(rng), -small(rng)]),
             'col': rng.random() < .08}
+
+
+def blw_branches(cbw, direction, b, width):
+    """Branch tags of one pass of `block_level_width` (mirrors Model.BoxModel.blwCore) for a width."""
+    pb = b['pl'] + b['pr'] + b['bl'] + b['br']
+    if width == 'auto':
+        return ['br:width-auto']
+    total = pb + width + sum(b[k] for k in ('ml', 'mr') if b[k] != 'auto')
+    tags = []
+    if total > cbw:
+        tags.append('br:over-wide')
+    if total > cbw or (b['ml'] != 'auto' and b['mr'] != 'auto'):
+        tags.append('br:over-constrained-shift' if direction == 'rtl' and not b['col'] else
+                    'br:over-constrained-noshift')
+    elif b['ml'] == 'auto' and b['mr'] == 'auto':
+        tags.append('br:center')
+    elif b['ml'] == 'auto':
+        tags.append('br:solve-left')
+    else:
+        tags.append('br:solve-right')
+    return tags
+
+
+EXPECTED_TAGS = {
+    'width': ['aaa', 'aav', 'ava', 'avv', 'vaa', 'vav', 'vva', 'vvv', 'ltr', 'rtl', 'tuple', 'br:width-auto',
+              'br:over-wide', 'br:over-constrained-shift', 'br:over-constrained-noshift', 'br:center',
+              'br:solve-left', 'br:solve-right'],
+    'width-minmax': ['pass:none', 'pass:max', 'pass:min', 'pass:max+min', 'last:br:over-constrained-shift',
+                     'last:br:over-constrained-noshift', 'last:br:center', 'last:br:solve-left',
+                     'last:br:solve-right', 'last:br:width-auto', 'last:br:over-wide'],
+    'resolve': ['page', 'block', 'cbh-auto', 'cbh-fixed', 'content-box', 'border-box', 'padding-box'],
+    'box-sizing': ['content-box', 'border-box', 'padding-box', 'width', 'height'],
+    'page': ['pwh', 'pwv', 'pw', 'ph'],
+    'wrappers': ['idw', 'idh'],
+    'shrink-to-fit': ['float', 'inline-block', 'w-auto', 'w-fixed', 'max', 'no-max', 'min', 'no-min'],
+    'translate': ['ignore', 'all', 'zero', 'move'],
+    'radii': ['removed', 'kept', 'px', 'pct', 'unit'],
+    'resolve-collapse': ['collapse', 'separate', 'preset0', 'preset4'],
+    'documents': ['ltr', 'rtl'],
+    'used-values': ['ltr', 'rtl', 'table', 'float', 'flex', 'grid', 'columns', 'list', 'positioned'],
+}
 
 
 def abox_from_meta(m):
@@ -728,7 +770,219 @@ def clause_stacking(doc, out):
             if r:
                 return r
         return None
-    return check(pages[0][-1])
+    root = pages[0][-1]
+    if F(root[3]) != 0:
+        return (f'the root element\'s margin box starts at {root[3]}, not at the top of the page area: its margins '
+                f'must not collapse with those of its children')
+    return check(root)
+
+
+# --------------------------------------------------------------------------------------------------
+# shrink-to-fit widths of floats and inline-blocks (float.py float_layout / inline.py inline_block_box_layout)
+
+def _dim_of(text):
+    d = sx.loads_line(text)[0]
+    return d if isinstance(d, str) else [d[0], dec(d[1]) if d[0] != 'unit' else d[1]]
+
+
+def _spec_pct(d, ref):
+    return 'auto' if d == 'auto' else d[1] if d[0] == 'px' else ref * d[1] / 100
+
+
+def clause_position(meta, out):
+    """(d) `left` / `right` in % refer to the containing block width, `top` / `bottom` to its height."""
+    dims = [_dim_of(t) for t in meta['dims']]
+    bad = any(isinstance(d, list) and d[0] == 'unit' for d in dims)
+    if out.startswith('err:'):
+        return None if bad else f'resolve_position_percentages raised {out}'
+    if bad:
+        return None
+    cbw, cbh = dec(meta['cbw']), dec(meta['cbh'])
+    got = [dec(v) for v in out.split()]
+    for name, d, ref, g in zip(('left', 'right', 'top', 'bottom'), dims, (cbw, cbw, cbh, cbh), got):
+        if g != _spec_pct(d, ref):
+            return f'{name}: {d} in a {cbw} x {cbh} containing block resolved to {g}, expected {_spec_pct(d, ref)}'
+    return None
+
+
+def clause_radius(meta, out):
+    """A percentage radius refers to the border box: horizontal to its width, vertical to its height; a 0px
+    radius or a corner on a removed side is (0, 0)."""
+    rx, ry = _dim_of(meta['rx']), _dim_of(meta['ry'])
+    zero = ['px', F(0)] in (rx, ry) or meta['gone']
+    bad = not zero and 'unit' in (rx[0], ry[0])
+    if out.startswith('err:'):
+        return None if bad else f'resolve_radii_percentages raised {out}'
+    if bad:
+        return None
+    want = (F(0), F(0)) if zero else (_spec_pct(rx, dec(meta['bw'])), _spec_pct(ry, dec(meta['bh'])))
+    got = tuple(dec(v) for v in out.split())
+    if got != want:
+        return (f'radius ({rx}, {ry}) of a {meta["bw"]} x {meta["bh"]} border box (corner removed: {meta["gone"]}) '
+                f'resolved to {got}, expected {want}')
+    return None
+
+
+def clause_collapse_borders(meta, out):
+    """Used border widths: the ones set by the border conflict resolution under border-collapse: collapse, else
+    the computed ones."""
+    st = _style_from_meta(meta['st'])
+    if out.startswith('err:') or any(isinstance(st[k], list) and st[k][0] == 'unit' for k in STYLE_KEYS):
+        return None
+    u = dict(zip(USED_KEYS, (dec(v) for v in out.split())))
+    for side, preset in zip(('top', 'right', 'bottom', 'left'), meta['presets']):
+        want = dec(preset) if (meta['collapse'] and preset is not None) else st[f'border_{side}_width']
+        if u[f'border_{side}_width'] != want:
+            return (f'border-{side}-width: computed {st[f"border_{side}_width"]}, set by border conflict resolution '
+                    f'{preset}, border-collapse {"collapse" if meta["collapse"] else "separate"}: used '
+                    f'{u[f"border_{side}_width"]}, expected {want}')
+    return None
+
+
+def rerun_position(meta):
+    _, boxes, _, _, _, percent = mods()
+    dims = [_dim_of(t) for t in meta['dims']]
+    box = boxes.BlockBox('div', dict(zip(('left', 'right', 'top', 'bottom'), map(dim_real, dims))), None, [])
+
+    def call():
+        percent.resolve_position_percentages(box, (dec(meta['cbw']), dec(meta['cbh'])))
+        return ' '.join(atom(getattr(box, k)) for k in ('left', 'right', 'top', 'bottom'))
+    return docs.outcome(call)
+
+
+def rerun_radius(meta):
+    """A box whose border box is bw x bh, the corner under test being top-left."""
+    _, boxes, _, _, _, percent = mods()
+    box = boxes.BlockBox('div', {}, None, [])
+    box.width, box.height = dec(meta['bw']), dec(meta['bh'])
+    for name in ('padding_left', 'padding_right', 'padding_top', 'padding_bottom', 'border_left_width',
+                 'border_right_width', 'border_top_width', 'border_bottom_width'):
+        setattr(box, name, F(0))
+    box.remove_decoration_sides = {'top'} if meta['gone'] else set()
+    zero = dim_real(['px', F(0)])
+    for other in ('top_right', 'bottom_right', 'bottom_left'):
+        box.style[f'border_{other}_radius'] = (zero, zero)
+    box.style['border_top_left_radius'] = (dim_real(_dim_of(meta['rx'])), dim_real(_dim_of(meta['ry'])))
+
+    def call():
+        percent.resolve_radii_percentages(box)
+        return ' '.join(atom(v) for v in box.border_top_left_radius)
+    return docs.outcome(call)
+
+
+def rerun_collapse(meta):
+    _, boxes, _, _, _, percent = mods()
+    real = style_real(_style_from_meta(meta['st']))
+    real['border_collapse'] = 'collapse' if meta['collapse'] else 'separate'
+    box = boxes.BlockBox('td', real, None, [])
+    for side, v in zip(('top', 'right', 'bottom', 'left'), meta['presets']):
+        if v is not None:
+            setattr(box, f'border_{side}_width', dec(v))
+
+    def call():
+        percent.resolve_percentages(box, (dec(meta['cbw']), dec(meta['cbh'])))
+        return ' '.join(atom(getattr(box, k)) for k in USED_KEYS)
+    return docs.outcome(call)
+
+
+def gen_shrink_case(rng):
+    fs = rng.choice([8, 10, 16])
+    words = [rng.choice([1, 2, 3, 4, 6, 9]) for _ in range(rng.choice([1, 2, 3, 5, 8]))]
+    cbw = F(rng.choice([40, 80, 100, 160, 240]))
+
+    def px(p, hi=24):
+        return F(rng.randrange(0, hi), rng.choice([1, 2, 4])) if rng.random() < p else F(0)
+    r = rng.random()
+    box = {'ml': 'auto' if rng.random() < .15 else px(.4) * rng.choice([1, 1, -1]),
+           'mr': 'auto' if rng.random() < .15 else px(.4),
+           'pl': px(.5), 'pr': px(.5), 'bl': px(.3, 6), 'br': px(.3, 6),
+           'w': 'auto' if r < .65 else F(rng.choice([0, 20, 50, 90, 200])),
+           'min': F(0) if rng.random() < .6 else F(rng.choice([10, 30, 60, 150])),
+           'max': INF if rng.random() < .6 else F(rng.choice([0, 15, 40, 70, 120])),
+           'x': F(0), 'col': False}
+    return {'kind': rng.choice(['float', 'inline-block']), 'fs': fs, 'words': words, 'cbw': cbw, 'box': box}
+
+
+def shrink_html(case):
+    b = case['box']
+
+    def v(x):
+        return 'auto' if x == 'auto' else css_num(x) + 'px'
+    style = (f'margin:0 {v(b["mr"])} 0 {v(b["ml"])};padding:0 {v(b["pr"])} 0 {v(b["pl"])};border-style:solid;'
+             f'border-width:0 {v(b["br"])} 0 {v(b["bl"])};width:{v(b["w"])};min-width:{v(b["min"])};'
+             f'max-width:{"none" if b["max"] == INF else v(b["max"])};'
+             + ('float:left' if case['kind'] == 'float' else 'display:inline-block'))
+    text = ' '.join('x' * n for n in case['words'])
+    return (f'<style>@page{{size:400px 400px;margin:0}}html,body{{margin:0}}body{{font-family:weasyprint;'
+            f'font-size:{case["fs"]}px;line-height:{case["fs"]}px}}</style>'
+            f'<div style="width:{css_num(case["cbw"])}px"><div id="b" style="{style}">{text}</div></div>')
+
+
+def shrink_line(case):
+    fs, words = case['fs'], case['words']
+    min_c = F(max(words) * fs)
+    max_c = F((sum(words) + len(words) - 1) * fs)
+    return sx.line('flw' if case['kind'] == 'float' else 'ibw', case['cbw'], min_c, max_c, abox_wire(case['box']))
+
+
+def run_shrink(case):
+    def call():
+        document = docs.render(shrink_html(case))
+        for box in document.pages[0]._page_box.descendants():
+            if getattr(box, 'element', None) is not None and box.element.get('id') == 'b' and hasattr(box, 'min_width'):
+                return (f'ml={fx(box.margin_left)} mr={fx(box.margin_right)} w={fx(box.width)} x=0', box)
+        return ('missing', None)
+    try:
+        return call()
+    except Exception as exc:  # noqa: BLE001
+        return (f'err:{type(exc).__name__}', None)
+
+
+def clause_shrink(case, out):
+    """(b)(c) for a float / inline-block (CSS 2.1 10.3.5, 10.3.9, 10.4): auto margins are 0; an auto width is
+    min(max(min-content, available), max-content) with available = containing block - own margins, borders,
+    paddings; then max-width, then min-width.  -> (what, finding id) | None"""
+    if not out.startswith('ml='):
+        return (f'{case["kind"]}: {out}', None)
+    r = parse_show(out)
+    b = case['box']
+    fs, words = case['fs'], case['words']
+    min_c, max_c = F(max(words) * fs), F((sum(words) + len(words) - 1) * fs)
+    ml = 0 if b['ml'] == 'auto' else b['ml']
+    mr = 0 if b['mr'] == 'auto' else b['mr']
+    available = case['cbw'] - (ml + mr + b['pl'] + b['pr'] + b['bl'] + b['br'])
+    w = min(max(min_c, available), max_c) if b['w'] == 'auto' else b['w']
+    if w > b['max']:
+        w = b['max']
+    if w < b['min']:
+        w = b['min']
+    if (r['ml'], r['mr']) != (ml, mr):
+        return (f'{case["kind"]}: used margins {r["ml"]} / {r["mr"]}, expected {ml} / {mr}', None)
+    if r['w'] != w:
+        known = None
+        if case['kind'] == 'float':
+            # the two known deviations of floats, recognised by their exact (wrong) value
+            if b['w'] != 'auto' and r['w'] == b['w']:
+                known = 'float-explicit-width-ignores-min-max'
+            elif b['w'] == 'auto':
+                documented = min(max(min_c, case['cbw']), max_c)
+                documented = b['max'] if documented > b['max'] else documented
+                documented = b['min'] if documented < b['min'] else documented
+                if r['w'] == documented:
+                    known = 'float-shrink-to-fit-ignores-own-extras'
+        return (f'{case["kind"]} in a {case["cbw"]}px containing block, own margins+borders+paddings '
+                f'{case["cbw"] - available}, min-content {min_c}, max-content {max_c}, width {b["w"]}, min-width '
+                f'{b["min"]}, max-width {b["max"]}: used width {r["w"]}, CSS 10.3.5/10.4 gives {w}', known)
+    return None
+
+
+def shrink_meta(case):
+    return {'kind': case['kind'], 'fs': case['fs'], 'words': case['words'], 'cbw': atom(case['cbw']),
+            'box': abox_meta(case['box'])}
+
+
+def shrink_from_meta(m):
+    return {'kind': m['kind'], 'fs': m['fs'], 'words': m['words'], 'cbw': F(m['cbw']), 'box': abox_from_meta(m['box'])}
 
 
 # --------------------------------------------------------------------------------------------------
@@ -1072,7 +1326,8 @@ def doc_oracle(doc):
 class C05(PropCheck):
     id = 'C05'
     extractors = ()
-    modules = ('WpModel.Props.C05', 'WpModel.Props.C05Pm', 'WpModel.Witness.C05', 'WpModel.Witness.C05Pm')
+    modules = ('WpModel.Props.C05', 'WpModel.Props.C05Pm', 'WpModel.Props.C05Check', 'WpModel.Props.C05Refine',
+               'WpModel.Props.C05Shrink', 'WpModel.Witness.C05', 'WpModel.Witness.C05Pm', 'WpModel.Witness.C05Shrink')
     trusted_base = (
         'modelled, not verified: collapse_margin, percentage, resolve_percentages, adjust_box_sizing, '
         'handle_min_max_width/height, block_level_width, page_width_or_height are hand transcriptions '
@@ -1169,6 +1424,80 @@ class C05(PropCheck):
                     tags=['page' if is_page else 'block', 'cbh-auto' if cbh == 'auto' else 'cbh-fixed',
                           st['box_sizing']])
 
+        sec = run.section('resolve-collapse', 'percent.resolve_percentages with border-collapse: collapse and border '
+                          'widths pre-set on the box (border conflict resolution of tables): pre-set ones are kept; '
+                          'non-trivial = at least one pre-set side with collapse')
+        for i in range(run.n(1500, 20000)):
+            st = gen_style(rng, False)
+            collapse = rng.random() < .7
+            presets = [nonneg(rng) if rng.random() < .5 else None for _ in range(4)]   # top right bottom left
+            cbw = nonneg(rng)
+            cbh = nonneg(rng) if rng.random() < .5 else 'auto'
+            real = style_real(st)
+            real['border_collapse'] = 'collapse' if collapse else 'separate'
+            box = boxes.BlockBox('td', real, None, [])
+            for side, v in zip(('top', 'right', 'bottom', 'left'), presets):
+                if v is not None:
+                    setattr(box, f'border_{side}_width', v)
+
+            def call():
+                percent.resolve_percentages(box, (cbw, cbh))
+                return ' '.join(atom(getattr(box, k)) for k in USED_KEYS)
+            sec.add(sx.line('rpc', False, collapse, *presets, style_wire(st), cbw, cbh), docs.outcome(call),
+                    meta={'st': {k: sx.dumps(v) for k, v in st.items()}, 'collapse': collapse,
+                          'presets': [None if v is None else atom(v) for v in presets], 'cbw': atom(cbw),
+                          'cbh': atom(cbh)},
+                    nontrivial=collapse and any(v is not None for v in presets),
+                    tags=['collapse' if collapse else 'separate', f'preset{sum(v is not None for v in presets)}'])
+
+        sec = run.section('position-percentages', 'percent.resolve_position_percentages (left/right against the width, '
+                          'top/bottom against the height); non-trivial = a percentage')
+        for i in range(run.n(1500, 20000)):
+            dims = [gen_dimq(rng, bad=.03) for _ in range(4)]
+            cbw, cbh = nonneg(rng), nonneg(rng)
+            box = boxes.BlockBox('div', dict(zip(('left', 'right', 'top', 'bottom'), map(dim_real, dims))), None, [])
+
+            def call():
+                percent.resolve_position_percentages(box, (cbw, cbh))
+                return ' '.join(atom(getattr(box, k)) for k in ('left', 'right', 'top', 'bottom'))
+            sec.add(sx.line('rpos', *dims, cbw, cbh), docs.outcome(call),
+                    meta={'dims': [sx.dumps(d) for d in dims], 'cbw': atom(cbw), 'cbh': atom(cbh)},
+                    nontrivial=any(isinstance(d, list) and d[0] == 'pct' for d in dims),
+                    tags=[d if isinstance(d, str) else d[0] for d in dims])
+
+        sec = run.section('radii', 'percent.resolve_radii_percentages on a real BlockBox (0px short track, removed '
+                          'decoration sides, percentages against the border box); one case per corner; non-trivial = '
+                          'a percentage radius on a kept corner')
+        for i in range(run.n(800, 12000)):
+            vals = [nonneg(rng) for _ in range(12)]
+            box = boxes.BlockBox('div', {}, None, [])
+            (box.width, box.height, box.padding_left, box.padding_right, box.padding_top, box.padding_bottom,
+             box.border_left_width, box.border_right_width, box.border_top_width, box.border_bottom_width) = vals[:10]
+            removed = {side for side in ('top', 'right', 'bottom', 'left') if rng.random() < .15}
+            box.remove_decoration_sides = set(removed)
+            def radius():
+                r = rng.random()
+                return (['px', F(0)] if r < .15 else ['px', nonneg(rng)] if r < .5 else
+                        ['unit', 'em'] if r < .53 else
+                        ['pct', rng.choice([F(0), F(50), F(100), F(25, 2), nonneg(rng)])])
+            bw, bh = box.border_width(), box.border_height()
+            names = ('top_left', 'top_right', 'bottom_right', 'bottom_left')
+            for corner in names:
+                rx, ry = radius(), radius()
+                zero = dim_real(['px', F(0)])
+                for other in names:     # the other corners take the 0px short track
+                    box.style[f'border_{other}_radius'] = (zero, zero)
+                box.style[f'border_{corner}_radius'] = (dim_real(rx), dim_real(ry))
+                gone = any(side in removed for side in corner.split('_'))
+
+                def call():
+                    percent.resolve_radii_percentages(box)
+                    return ' '.join(atom(v) for v in getattr(box, f'border_{corner}_radius'))
+                sec.add(sx.line('radius', rx, ry, gone, bw, bh), docs.outcome(call),
+                        meta={'rx': sx.dumps(rx), 'ry': sx.dumps(ry), 'gone': gone, 'bw': atom(bw), 'bh': atom(bh)},
+                        nontrivial=not gone and 'pct' in (rx[0], ry[0]),
+                        tags=['removed' if gone else 'kept', rx[0], ry[0]])
+
         sec = run.section('width', 'block.block_level_width without min/max: 8 auto patterns x ltr/rtl x box/tuple '
                           'containing block x is_column; non-trivial = not (all three auto-free and fitting)')
         sec_mm = run.section('width-minmax', 'block.block_level_width (decorated by handle_min_max_width); '
@@ -1179,15 +1508,26 @@ class C05(PropCheck):
             b = gen_abox(rng, adversarial, cbw)
             cb = ['box', cbw, rng.choice(['ltr', 'rtl'])] if rng.random() < .85 else ['tuple', cbw]
             pattern = ''.join('a' if b[k] == 'auto' else 'v' for k in ('ml', 'w', 'mr'))
-            tags = [pattern, cb[2] if cb[0] == 'box' else 'tuple']
+            direction = cb[2] if cb[0] == 'box' else 'tuple'
+            tags = [pattern, direction] + blw_branches(cbw, direction, b, b['w'])
             meta = {'cb': [cb[0], atom(cb[1])] + cb[2:], 'b': abox_meta(b)}
             out = run_width('blw', cb, b)
             sec.add(sx.line('blw', cb, abox_wire(b)), out, meta=dict(meta, cmd='blw'), nontrivial=True, tags=tags)
+            r1 = parse_show(out) if not out.startswith('err:') else None
             out = run_width('blwmm', cb, b)
             r = parse_show(out) if not out.startswith('err:') else None
             fired = bool(r) and b['w'] != r['w'] and (r['w'] == b['min'] or r['w'] == b['max'])
+            mm_tags = []
+            if r1 and r:        # which passes of the wrapper ran (mirrors Model.BoxModel.handleMinMaxWidth)
+                over_max = r1['w'] > b['max']
+                w2 = b['max'] if over_max else r1['w']
+                under_min = w2 < b['min']
+                mm_tags = [('pass:max+min' if under_min else 'pass:max') if over_max else
+                           ('pass:min' if under_min else 'pass:none')]
+                last_w = b['w'] if not (over_max or under_min) else r['w']
+                mm_tags += ['last:' + t for t in blw_branches(cbw, direction, b, last_w)]
             sec_mm.add(sx.line('blwmm', cb, abox_wire(b)), out, meta=dict(meta, cmd='blwmm'), nontrivial=fired,
-                       tags=tags + (['clamped'] if fired else []))
+                       tags=[pattern, direction] + mm_tags)
 
         sec = run.section('page', 'page.page_width_or_height (HorizontalBox and VerticalBox), page_width, page_height '
                           '(handle_min_max_height); non-trivial = at least one auto among margins and size')
@@ -1234,7 +1574,38 @@ class C05(PropCheck):
                           'padding/border) laid out by the real pipeline: position_y, used margins, paddings, '
                           'borders, height of every box and the y of every line against the pagination model; '
                           'non-trivial = always (pm_corr counts pages >= 2 only)')
-        pm_corr.add_cases(run, sec, run.n(500, 10000), gen=gen_collapse_doc, skip_errors=False)
+        pm_corr.add_cases(run, sec, run.n(350, 10000), gen=gen_collapse_doc, skip_errors=False)
+
+        sec = run.section('shrink-to-fit', 'documents with one float or inline-block holding words of the fixed-pitch '
+                          'font (min-content = longest word, max-content = the whole line), with margins / borders / '
+                          'paddings / width / min / max: used margins and width of the real box against the model of '
+                          'float_layout / inline_block_box_layout (shrink_to_fit + handle_min_max_width); '
+                          'non-trivial = auto width')
+        for i in range(run.n(300, 8000)):
+            case = gen_shrink_case(rng)
+            out, _ = run_shrink(case)
+            b = case['box']
+            sec.add(shrink_line(case), out, meta=shrink_meta(case), nontrivial=b['w'] == 'auto',
+                    tags=[case['kind'], 'w-auto' if b['w'] == 'auto' else 'w-fixed',
+                          'max' if b['max'] != INF else 'no-max', 'min' if b['min'] else 'no-min'])
+
+        from harness import c05_used
+        sec = run.section('used-values', 'wide-grammar documents (harness/widegen.py: tables, floats, columns, flex, grid, '
+                          'lists, positioned boxes, footnotes, page breaks; rtl and roomier pages mixed in): per page, '
+                          'the used values of every box are exported and checked by the verified Lean checker '
+                          '(Model/UsedCheck.lean: non-negative sizes, min/max, start/end edge, width equation, stacking, '
+                          'containment); the implementation side is the constant claim "ok"; non-trivial = a page with '
+                          'at least 3 flow boxes')
+        used_stats = collections.Counter()
+        for k in range(run.n(90, 2000)):
+            for case in c05_used.wide_cases(rng, adversarial=(k % 4 == 3)):
+                if case[0] is None:
+                    sec.tags['render-error (C02)'] += 1
+                    continue
+                line, meta, tags, stats = case
+                used_stats.update(stats)
+                sec.add(line, 'ok', meta=meta, nontrivial=stats['flow'] >= 3, tags=tags)
+        run.extra['used_values_boxes'] = dict(used_stats)
 
         sec = run.section('documents', 'random trees of block divs (html > body > divs, depth <= 5) with margin / '
                           'padding / border / width / height / min / max / box-sizing from {auto, 0, px, %, em}, '
@@ -1242,7 +1613,7 @@ class C05(PropCheck):
                           'horizontal and vertical used values, final height when determinate; non-trivial = at '
                           'least 3 blocks below body')
         n_boxes = 0
-        for i in range(run.n(2500, 40000)):
+        for i in range(run.n(1200, 20000)):
             doc = gen_doc(rng)
             try:
                 res = real_geometry(doc)
@@ -1254,11 +1625,25 @@ class C05(PropCheck):
             sec.add(doc_line(doc), out, meta={'doc': doc_meta(doc)}, nontrivial=count >= 5,
                     tags=[f'blocks{min(count // 4 * 4, 24)}', doc['root'][0]['dir']])
         run.extra['document_boxes_compared'] = n_boxes
+        run.extra['branches_never_hit'] = {
+            sec_.name: missing for sec_ in run.sections
+            if (missing := [t for t in EXPECTED_TAGS.get(sec_.name, ()) if not sec_.tags.get(t)])}
 
     # ---------------------------------------------------------------------------------------------
+    def classify(self, d):
+        if d['section'] == 'used-values':
+            from harness import c05_used
+            return c05_used.classify(d['meta'], d['line'], d['model'])
+        return None
+
     def judge(self, d):
         meta = d.get('meta') or {}
         section, impl = d['section'], d['impl']
+        if section == 'used-values':
+            from harness import c05_used
+            if d['model'].startswith('bad '):
+                return f'page {meta["page_index"]}: ' + c05_used.explain_row(d['line'], d['model'])
+            return None
         if section == 'collapse':
             ms = [F(m) for m in meta['ms']]
             return clause_collapse(ms, impl if impl.startswith('err:') else F(impl))
@@ -1279,6 +1664,15 @@ class C05(PropCheck):
             cmd = meta['cmd']
             r = clause_width({'pwv': 'pwh'}.get(cmd, cmd), cb, b, impl)
             return r[0] if r and r[1] is None else None
+        if section == 'shrink-to-fit':
+            r = clause_shrink(shrink_from_meta(meta), impl)
+            return r[0] if r and r[1] is None else None
+        if section == 'position-percentages':
+            return clause_position(meta, impl)
+        if section == 'radii':
+            return clause_radius(meta, impl)
+        if section == 'resolve-collapse':
+            return clause_collapse_borders(meta, impl)
         if section == 'stacking':
             from harness import pm_corr
             return clause_stacking(pm_corr.doc_from_json(meta['doc']), impl)
@@ -1377,12 +1771,31 @@ class C05(PropCheck):
                 'empty-block-negative-margin-height': finding_empty_block_height,
                 'rtl-minmax-shift-accumulates': finding_rtl_accumulates,
                 'rtl-relayout-shift-accumulates': finding_rtl_relayout,
-                'zero-percent-height-auto-cb': finding_zero_percent}
+                'zero-percent-height-auto-cb': finding_zero_percent,
+                'first-line-overflow-margin-hack': finding_first_line_hack,
+                'table-row-group-negative-height': finding_table_row_group,
+                'float-explicit-width-ignores-min-max': finding_float_minmax,
+                'float-shrink-to-fit-ignores-own-extras': finding_float_extras,
+                'empty-fragment-below-page-bottom': finding_empty_fragment}
 
     def replay(self, data):
         inp = data.get('input', {})
         meta = inp.get('meta') or {}
         section = inp.get('section')
+        if section == 'used-values':
+            from harness import c05_used
+            from vlib import lean
+            docs.quiet()
+            document = docs.render(meta['html'])
+            pages = c05_used.page_lines(document)
+            if meta['page_index'] >= len(pages):
+                return None
+            line = pages[meta['page_index']][0]
+            out = lean.run_driver(self.driver, [line])[0]
+            info = dict(meta, **c05_used.page_info(document.pages[meta['page_index']]))
+            if out.startswith('bad ') and c05_used.classify(info, line, out) is None:
+                return f'page {meta["page_index"]}: ' + c05_used.explain_row(line, out)
+            return None
         if section == 'collapse':
             _, _, block, _, _, _ = mods()
             ms = [F(m) for m in meta['ms']]
@@ -1420,6 +1833,16 @@ class C05(PropCheck):
             cmd = meta['cmd']
             r = clause_width({'pwv': 'pwh'}.get(cmd, cmd), cb, b, run_width(cmd, cb, b))
             return r[0] if r else None
+        if section == 'shrink-to-fit':
+            case = shrink_from_meta(meta)
+            r = clause_shrink(case, run_shrink(case)[0])
+            return r[0] if r else None
+        if section == 'position-percentages':
+            return clause_position(meta, rerun_position(meta))
+        if section == 'radii':
+            return clause_radius(meta, rerun_radius(meta))
+        if section == 'resolve-collapse':
+            return clause_collapse_borders(meta, rerun_collapse(meta))
         if section == 'stacking':
             from harness import pm_corr
             doc = pm_corr.doc_from_json(meta['doc'])
@@ -1501,6 +1924,70 @@ def finding_zero_percent():
     return heights.get('c') != heights.get('e')
 
 
+def _blocks(page):
+    from weasyprint.formatting_structure import boxes
+    return [b for b in page._page_box.descendants() if isinstance(b, (boxes.BlockBox, boxes.LineBox))]
+
+
+def finding_first_line_hack():
+    """A paragraph with a top margin whose first line does not fit on an empty page: `_linebox_layout` moves the
+    line up by the margin and zeroes `margin_top`, but the margin was already counted in the adjoining margins:
+    the paragraph (and every ancestor collapsing with it) stays 8px lower than its own line, with height 0."""
+    docs.quiet()
+    document = docs.render('<style>@page{size:100px 12px;margin:0}html,body{margin:0}'
+                           'body{font-size:4px;line-height:6px}</style><p style="margin:8px 0">w</p>')
+    from weasyprint.formatting_structure import boxes
+    for box in _blocks(document.pages[0]):
+        if isinstance(box, boxes.BlockBox) and box.element_tag == 'p':
+            line = box.children[0]
+            return line.position_y < box.content_box_y() or box.height < line.height
+    return False
+
+
+def finding_empty_fragment():
+    """A 50px paragraph with a 13px bottom margin on a 60px page, followed by a block whose first child is a
+    float: the first page gets an empty fragment of that block at y = 63, below the page bottom, of height -3."""
+    docs.quiet()
+    document = docs.render('<style>@page{size:60px 60px;margin:0}html,body{margin:0}body{font-size:10px;'
+                           'line-height:12px}p{margin:0}</style><p style="height:50px;margin-bottom:13px">a</p>'
+                           '<div id=d><div style="float:left">f</div><p>b</p></div>')
+    return any(box.height < 0 for box in _blocks(document.pages[0]))
+
+
+def finding_table_row_group():
+    """corpus/C05/table_row_group_negative_height.json: a table with rowspan=2 cells followed by an empty row,
+    fragmented over 25px pages: a row group fragment gets height -1 (minus the border spacing)."""
+    import json
+    from vlib.paths import CORPUS
+    from weasyprint.formatting_structure import boxes
+    docs.quiet()
+    html = json.loads((CORPUS / 'C05' / 'table_row_group_negative_height.json').read_text())['html']
+    document = docs.render(html)
+    return any(isinstance(box, (boxes.TableRowGroupBox, boxes.TableRowBox)) and box.height < 0
+               for page in document.pages for box in page._page_box.descendants())
+
+
+def _float_case(**box):
+    base = {'ml': F(0), 'mr': F(0), 'pl': F(0), 'pr': F(0), 'bl': F(0), 'br': F(0), 'w': 'auto', 'min': F(0),
+            'max': INF, 'x': F(0), 'col': False}
+    base.update(box)
+    return {'kind': 'float', 'fs': 10, 'words': [3, 3, 3, 3, 3, 3], 'cbw': F(100), 'box': base}
+
+
+def finding_float_minmax():
+    """`float:left; width:80px; max-width:50px` stays 80px wide."""
+    docs.quiet()
+    out, _ = run_shrink(_float_case(w=F(80), max=F(50)))
+    return out.startswith('ml=') and parse_show(out)['w'] > 50
+
+
+def finding_float_extras():
+    """`float:left; padding:0 10px` with wrapping text in a 100px block: content box 100px, margin box 120px."""
+    docs.quiet()
+    out, _ = run_shrink(_float_case(pl=F(10), pr=F(10)))
+    return out.startswith('ml=') and parse_show(out)['w'] + 20 > 100
+
+
 def finding_empty_block_height():
     """An empty block that collapses through with a negative top margin gets height = -collapse_margin."""
     from harness import docs
@@ -1516,10 +2003,14 @@ PROP = C05()
 
 MANIFEST = {
     'design_ref': 'DESIGN.md §4 C05',
-    'technique': 'Lean 4 theorems over hand-written models of collapse_margin, percentage / resolve_percentages / '
-                 'adjust_box_sizing, handle_min_max_width/height, block_level_width and page_width_or_height; exact '
-                 'executable correspondence with the real functions on Fractions, and with rendered documents '
-                 '(trees of block boxes, ltr/rtl) through a top-down tree model',
+    'technique': 'Lean 4 theorems over hand-written models of collapse_margin, percentage / resolve_percentages (incl. '
+                 'collapsed borders, position and radii percentages) / adjust_box_sizing, handle_min_max_width/height, '
+                 'block_level_width, page_width_or_height, shrink_to_fit / float and inline-block widths, the Box '
+                 'geometry helpers; exact executable correspondence with the real functions on Fractions and with '
+                 'rendered documents (block trees ltr/rtl, floats / inline-blocks, the pagination model for vertical '
+                 'stacking); a verified checker of the property statement (non-negative sizes, min/max, edges, width '
+                 'equation, stacking, containment) with soundness and refinement theorems, run on every box of rendered '
+                 'wide-grammar documents',
     'text': 'Proved for all inputs on the model: the CSS 2.1 10.3.3 width equation for all 8 auto patterns in ltr and '
             'rtl unless over-constrained (then the geometry: start edge kept in ltr, end edge flush in rtl), min <= width '
             '(and width <= max when min <= max) after the min/max wrappers for any wrapped function that keeps a '
@@ -1527,14 +2018,22 @@ MANIFEST = {
             'an auto containing block become auto / 0 / inf), box-sizing shifts size/min/max by the same extras and '
             'never below 0, collapse_margin = largest positive + most negative (permutation invariant, '
             'incrementally accumulable, max / min on one-signed lists), children start at the parent content edge '
-            'and fill its width. Vertical stacking and margin adjoining across boxes (clauses g, h) are the pagination '
-            'model\'s theorems (Props/C05Pm), tied here by the stacking section (collapse-biased one-page documents).',
+            'and fill its width, shrink-to-fit widths lie between min- and max-content and inline-blocks fit their '
+            'containing block. The executable checker of used values is sound (usedOk = true implies every clause '
+            'for every box: sizes, min/max, edges, equation, no overlap of stacked children) and accepts every box the '
+            'block-tree model lays out in ltr (refinement, tolerance 0). Vertical stacking and margin adjoining '
+            'across boxes (clauses g, h) are the pagination model\'s theorems (Props/C05Pm), tied here by the stacking '
+            'section (collapse-biased one-page documents).',
     'note': 'Trusted: Lean kernel, the hand transcription of the named functions (tied to /repo only through the '
             'generated correspondence cases: direct calls with Fractions on real BlockBox/PageBox objects and '
-            'rendered documents with dyadic lengths). Known findings (each with a Lean witness and a replay): the '
-            'stored margin_right is not recomputed in an over-constrained ltr box (literal equation false, geometry '
-            'right: width_equation_partial); the rtl position shift is applied once per min/max re-entry and once '
-            'per re-layout after a page overflow (box displaced: edge_flush_minmax_partial); 0% heights are lengths, '
-            'not percentages, in an auto-height containing block. Vertical stacking / margin adjoining across boxes '
-            '(clause g) belong to the pagination model; inline-level boxes, floats, absolute boxes are not covered.',
+            'rendered documents with dyadic lengths); on the wide grammar (tables, flex, grid, columns, floats) the '
+            'property is only checked (verified checker on sampled renders), not modelled. Known findings (each '
+            'with a Lean witness, a replay and a corpus file): stored margin_right not recomputed (literal equation '
+            'false, geometry right); rtl position shift applied once per min/max re-entry and once per re-layout '
+            'after a page overflow; 0% heights are lengths in an auto-height containing block; floats ignore '
+            'min/max-width when width is specified and ignore their own padding/border/margins in shrink-to-fit; '
+            'the first-line-overflow margin hack leaves boxes below their lines (negative heights when fragmented); '
+            'an empty fragment below the page bottom gets a negative height; empty block with negative margin gets a '
+            'positive height. Inline-level boxes other than inline-blocks, absolute boxes, table and flex/grid '
+            'sizing are not covered here.',
 }
